@@ -5,6 +5,7 @@ use crate::gen::Flt;
 use serde_json::{json, Value};
 
 pub mod c01;
+pub mod regress;
 pub mod c02;
 pub mod c03;
 pub mod c04;
